@@ -166,6 +166,8 @@ pub struct Session {
     pub subs: Vec<Sub>,
     pub saved_rel: VecDeque<u16>,
     pub resumes: u64,
+    /// a forward could not be attributed to one subscription: the stream pointers of this session are unreliable
+    pub ambiguous: bool,
 }
 
 #[derive(Clone, Debug)]
@@ -322,6 +324,7 @@ impl Model {
         if clean || !session.saved {
             session.subs.retain(|s| s.closed_at.is_some());
             session.saved_rel.clear();
+            session.ambiguous = false;
         } else {
             session.resumes += 1;
             for s in session.subs.iter_mut().filter(|s| s.closed_at.is_none()) {
@@ -336,7 +339,9 @@ impl Model {
         let _ = len;
         session.saved = false;
         session.live = Some(conn);
+        let inherited_ambiguity = session.ambiguous;
         let c = &mut self.conns[conn];
+        c.ambiguous = inherited_ambiguity;
         c.state = ConnState::Live;
         c.session_present = present;
         c.owed.push_back(Reply::ConnAck(present));
@@ -943,6 +948,16 @@ impl Model {
     }
 
     fn observe_forward(&mut self, conn: usize, p: &PubParts, props: &Option<PublishProperties>, out: &mut Vec<Record>) {
+        self.observe_forward_inner(conn, p, props, out);
+        if self.conns[conn].ambiguous {
+            let client = self.conns[conn].client.clone();
+            if let Some(s) = self.sessions.get_mut(&client) {
+                s.ambiguous = true;
+            }
+        }
+    }
+
+    fn observe_forward_inner(&mut self, conn: usize, p: &PubParts, props: &Option<PublishProperties>, out: &mut Vec<Record>) {
         let client = self.conns[conn].client.clone();
         let payload = pstr(&p.payload);
         if is_undefined_payload(&payload) {
@@ -1052,11 +1067,13 @@ impl Model {
                         && s.retained_ok.get(&topic).map(|(ok, _)| ok.contains(&payload)).unwrap_or(false)
                 })
                 .collect();
-            let hit = eligible
-                .iter()
-                .copied()
-                .find(|i| self.sessions[&client].subs[*i].qos == p.qos)
-                .or(eligible.first().copied());
+            // several subscriptions may be owed this replay: the one that still *requires* it explains it best,
+            // then the right QoS, then the most recent subscription
+            let hit = eligible.iter().copied().min_by_key(|i| {
+                let s = &self.sessions[&client].subs[*i];
+                let optional = s.retained_ok.get(&topic).map(|x| x.1).unwrap_or(true);
+                (optional, s.qos != p.qos, std::cmp::Reverse(s.sub_step))
+            });
             match hit {
                 Some(i) => {
                     let s = &mut self.sessions.get_mut(&client).unwrap().subs[i];
@@ -1113,6 +1130,11 @@ impl Model {
             .filter(|i| self.sessions[&client].subs[*i].group.is_some())
             .collect();
 
+        // a subscription that is still in force explains a forward before one that has ended (whose backlog
+        // the broker may drop)
+        if hits.iter().any(|i| self.sessions[&client].subs[*i].closed_at.is_none()) {
+            hits.retain(|i| self.sessions[&client].subs[*i].closed_at.is_none());
+        }
         // a forward whose QoS differs from the granted QoS of the subscription it would continue is only
         // attributed to it when no subscription with the right QoS could have been meant
         let qos_ok_candidate_exists = cands.iter().any(|i| {
@@ -1289,7 +1311,8 @@ impl Model {
             }
         }
         if let Some(r) = best {
-            out.push(r.fact("alias_used", used_alias));
+            let requal = self.sessions[&client].subs.iter().any(|s| s.resubscribed_qos_changed && s.closed_at.is_none());
+            out.push(r.fact("alias_used", used_alias).fact("session_resubscribed_with_other_qos", requal));
         }
     }
 
@@ -1420,6 +1443,16 @@ impl Model {
                             .fact("qos", s.qos)
                             .fact("none_delivered_since_resume", s.resumed && s.observed == 0),
                     );
+                    // the same state seen through C09's last-but-one clause: everything was acknowledged in
+                    // order, yet the backlog of a client that had QoS>0 deliveries outstanding is not resumed
+                    if self.conns[conn].max_outstanding > 0 && !is_will {
+                        let p09 = self.prop_for(conn, "C09");
+                        out.push(
+                            Record::new(p09, "backlog-not-resumed", format!("'{client}': after all acknowledgements the backlog on '{}' ({} messages, first '{}') is not forwarded without further stimulus", s.path, missing, m.payload))
+                                .fact("session_resumed", s.resumed)
+                                .fact("window_was_full", self.conns[conn].max_outstanding >= self.window),
+                        );
+                    }
                 }
                 // C15: replay complete
                 self.eval("retained-complete");
@@ -1433,7 +1466,7 @@ impl Model {
                     self.qos0_batch
                 };
                 let fits = s.retained_ok.len() <= room;
-                if !want.is_empty() && fits && !s.resumed {
+                if !want.is_empty() && fits {
                     let prop = self.prop_for(conn, "C15");
                     out.push(
                         Record::new(prop, "retained-missing", format!("'{client}': retained message of '{}' was not replayed to new subscription '{}'", want[0], s.path))
